@@ -8,6 +8,7 @@ LEAN_MODULES = ["ViaProofs.C03"]
 LEMMA_MODULES = ['ViaProofs.ConnLemmas', 'ViaProofs.ConnWrites']
 REQUIRED_THEOREMS = ['Via.C03_partial_write_started', 'Via.C03_partial_bytes_stable', 'Via.C03_overlap_is_refused', 'Via.C03_partial_one_write_in_flight']
 LEVEL = "proof"
+LEVEL_TEXT = ('PARTIAL PROOF: the full property is false of the code (known finding C03-KF1: a response issued while a write is in flight is dropped); proved: a send on an idle connection starts exactly one write of exactly its buffers, at most one write is in flight after EVERY history (C03_partial_one_write_in_flight), an overlapping send is the refused one. The real http_server/http_connection/comms templates run over a scripted adaptor and are compared line by line with the model on generated histories; order/exactly-once oracle on the real trace. Kernel partial-write sizes and thread-pool effects are modelled as event nondeterminism.')
 TRUSTED_BASE = S.SIM_TRUSTED
 ASSUMPTIONS = S.SIM_ASSUMPTIONS
 compare = S.compare
